@@ -425,6 +425,41 @@ func vfJournal(prop, sub string, c any) {
 	_ = vfJournalF.Truncate(int64(len(b)))
 }
 
+// vfWatchdog: liveness oracle for "always terminates". A detection normally takes microseconds;
+// a case that has not returned after `budget` (tens of seconds, i.e. 4-6 orders of magnitude
+// more, also on a heavily loaded machine) is reported as a failure with the case as replay file.
+// The process must exit, because the hanging call cannot be interrupted.
+var (
+	vfWatchOnce  sync.Once
+	vfWatchStart atomic.Int64 // unix nanos of the running case, 0 = idle
+	vfWatchCase  atomic.Pointer[vfHistEntry]
+	vfWatchProp  atomic.Pointer[string]
+)
+
+func vfWatchdog(prop, sub string, c any, budget time.Duration) func() {
+	vfWatchOnce.Do(func() {
+		go func() {
+			for {
+				time.Sleep(500 * time.Millisecond)
+				st := vfWatchStart.Load()
+				if st == 0 || time.Since(time.Unix(0, st)) < budget {
+					continue
+				}
+				e, p := vfWatchCase.Load(), vfWatchProp.Load()
+				if e != nil && p != nil {
+					vfWriteFail(*p, e.sub, e.c, fmt.Errorf("no answer after %v: the call did not terminate (a detection normally returns within microseconds)", budget))
+				}
+				fmt.Println("WATCHDOG: case did not terminate; exiting")
+				os.Exit(3)
+			}
+		}()
+	})
+	vfWatchCase.Store(&vfHistEntry{sub, c})
+	vfWatchProp.Store(&prop)
+	vfWatchStart.Store(time.Now().UnixNano())
+	return func() { vfWatchStart.Store(0) }
+}
+
 func vfScratchDir() string {
 	if out := os.Getenv("VERIF_OUT"); out != "" {
 		return filepath.Dir(out)
